@@ -14,7 +14,7 @@
    The soundness direction is FALSE for the code as it is (known findings D4 and D12, theorems
    C10_sound_refuted and C10_sound_refuted_value): the acyclicity and no-repeated-child conjuncts hold unconditionally, the
    single-definition conjunct under the two guards that exclude exactly D4 and D12. *)
-Require Import Puan.Base Puan.Plog Puan.Sem Puan.Errors Puan.ErrorsSpec Puan.ErrorsFacts.
+Require Import Puan.Base Puan.Plog Puan.Sem Puan.Errors Puan.ErrorsSpec Puan.ErrorsFacts Puan.Validated Puan.ColsFacts.
 Open Scope string_scope.
 
 (* ------------------------------------------------------------------ soundness, conjunct 1 *)
@@ -192,3 +192,21 @@ Example C10_d4_minus_one :
              [Node (mk KAny) "M" false 0 1 1 1 [Var "u" 2 2; Var "z" (-3) 2]; Var "z" (-4) 2]) = [].
 Proof. exact d4_minus_one_example. Qed.
 Print Assumptions C10_d4_minus_one.
+
+(* the validation model used here (Errors.errors2, compared with AtLeast.errors() on every run) and
+   the one written next to the polyhedron / evaluation model (Plog.errors, over Plog.flatten) are the
+   same function: what validation establishes is established about the very flatten() list whose
+   entries become the polyhedron's columns *)
+Theorem C10_one_validation_model :
+  forall m : prop, errors2 m = errors m /\ flatten2 m = flatten m.
+Proof. intros m. split; [exact (errors2_eq m)|exact (flatten2_eq m)]. Qed.
+Print Assumptions C10_one_validation_model.
+
+(* for validated models whose compounds all have a child, flatten() lists every id once *)
+Theorem C10_flatten_distinct_ids :
+  forall m : prop,
+    errors2 m = [] -> no_bounds_hash_collision m -> no_value_hash_collision m ->
+    leaves_apart m -> gen_coherent m -> no_childless m ->
+    NoDup (map id_of (flatten m)).
+Proof. intros m He Hb Hv. exact (validated_flatten_ids m (conj He (conj Hb Hv))). Qed.
+Print Assumptions C10_flatten_distinct_ids.
